@@ -1,5 +1,6 @@
 import RexModel.Gen.Calls
 import RexModel.Gen.Compiled
+import RexModel.Async.Calls
 
 /-! # C06 — every scheduled step executes the user's step function exactly once
 
@@ -61,6 +62,15 @@ theorem supervisor_calls (step : Int) (override : Bool) :
 
 /-- after a step the node's sequence number is the tick's number plus one (both update sites) -/
 theorem seq_after_step (seq : Int) : seq_increment seq = seq + 1 ∧ run_node_seq_increment seq = seq + 1 := ⟨rfl, rfl⟩
+
+/-- **Threaded runtime, every schedule**: in every state the asynchronous machine can reach — for any graph, delay streams,
+step functions and any interleaving of the node and connection threads — every non-supervisor node has evaluated its step
+function exactly as many times as it has recorded ticks (the counter is bumped exactly where `cfg.f` is applied, in
+`finishStep`), and never waits for an action. -/
+theorem async_calls_once {T : Type} [Rex.Async.TimeLike T] (cfg : Rex.Async.Cfg T) {σ : List Rex.Async.Rule} {s : Rex.Async.MSt T}
+    (h : Rex.Conf.Run (Rex.Async.machine cfg).toNet.sys (Rex.Async.initState cfg) σ s) (n : Nat) (hn : n ≠ cfg.sup) :
+    (s.q (.node n .record)).length = (s.priv (.step n)).calls ∧ (s.priv (.step n)).pending = none :=
+  Rex.Async.callsInv_run cfg h (Rex.Async.callsInv_init cfg) n hn
 
 example : runSlots [⟨0, true, 3⟩, ⟨1, false, 5⟩, ⟨0, true, 4⟩] = [(0, 3), (0, 4)] := by decide
 
